@@ -71,4 +71,53 @@ def specPairs : Pairs :=
   cross [".", "+"] ["number", "percentage", "dimension"] ++
   cross ["/"] ["*"]
 
+
+/-! ## the domain of `roundtrip_partial` -/
+
+/-- white-space text as the tokenizer produces it -/
+def IsWsText (w : Str) : Prop := w ≠ [] ∧ ∀ c ∈ w, isWs c = true
+
+/-- what follows a token in a white-space separated list: nothing, or text starting with white space -/
+def WsOrEnd : Str → Prop
+  | [] => True
+  | c :: _ => isWs c = true
+
+/-- the token classes `roundtrip_partial` handles, each with the text serialize.go writes for it:
+any identifier, any (closed) string, any (closed) url without NUL -/
+inductive Simple : Tok → Str → Prop
+  | ident (p : Nat) (s t : Str) : serializeIdentifier s = some t → Simple (.ident p s) t
+  | str (p : Nat) (s : Str) : Simple (.str p s false) ('"' :: serializeString s ++ ['"'])
+  | url (p : Nat) (s : Str) : (∀ c ∈ s, c ≠ '\x00') →
+      Simple (.url p s false) ('u' :: 'r' :: 'l' :: '(' :: (serializeUrl s ++ [')']))
+
+/-- simple tokens separated by single white-space tokens (possibly ending in one), with their text -/
+inductive Chain : List Tok → Str → Prop
+  | nil : Chain [] []
+  | last (t : Tok) (txt : Str) : Simple t txt → Chain [t] txt
+  | cons (t : Tok) (txt : Str) (p : Nat) (w : Str) (ts : List Tok) (rest : Str) :
+      Simple t txt → IsWsText w → Chain ts rest → Chain (t :: Tok.ws p w :: ts) (txt ++ w ++ rest)
+
+/-- … possibly starting with a white-space token -/
+inductive WsSeparated : List Tok → Str → Prop
+  | chain (ts : List Tok) (txt : Str) : Chain ts txt → WsSeparated ts txt
+  | ws (p : Nat) (w : Str) (ts : List Tok) (txt : Str) : IsWsText w → Chain ts txt →
+      WsSeparated (Tok.ws p w :: ts) (w ++ txt)
+
+def Tok.setPos (q : Nat) : Tok → Tok
+  | .ws _ v => .ws q v
+  | .comment _ v => .comment q v
+  | .ident _ v => .ident q v
+  | .atkw _ v => .atkw q v
+  | .hash _ v i => .hash q v i
+  | .str _ v e => .str q v e
+  | .url _ v e => .url q v e
+  | .lit _ v => .lit q v
+  | .urange _ s e => .urange q s e
+  | .num _ r i => .num q r i
+  | .pct _ r i => .pct q r i
+  | .dim _ r i u => .dim q r i u
+  | .block _ k a => .block q k a
+  | .func _ n a => .func q n a
+  | .error _ k => .error q k
+
 end WR.C20
